@@ -100,7 +100,18 @@ func genC03(r *rand.Rand, run int, tier string) *vm.Plan {
 	for ci := 0; ci <= len(common); ci++ {
 		for k := range pos {
 			if pos[k] == ci {
-				tx = h.attenuate(tx, g.Hostile(targets, known, false))
+				extra := g.Hostile(targets, known, false)
+				if r.Intn(3) == 0 {
+					// rules only, over facts that the OTHER blocks state: derives nothing in its own scope
+					var later []ref.Pred
+					for _, cb := range common {
+						later = append(later, cb.Facts...)
+					}
+					if ro := g.RuleOnlyBlock(targets, later); len(ro.Rules) > 0 {
+						extra = ro
+					}
+				}
+				tx = h.attenuate(tx, extra)
 				idx++
 			}
 		}
@@ -551,6 +562,12 @@ func genC18(r *rand.Rand, run int, tier string) *vm.Plan {
 		toks = append(toks, h.build(key, g.BlockFor(nil, 3, 1, 1), nil))
 	}
 	content := g.AuthzFor(auth.Facts, 4, 3, 3, 4)
+	// a quarter of the runs configure tight limits on every authorizer of the run (original, fresh
+	// twin, restored): a restored authorizer runs under the limits it was created with
+	bigDur := bigDur
+	if r.Intn(4) == 0 {
+		bigDur = &vm.Lim{MaxDurNs: 1e9, MaxFacts: len(content.Facts) + len(auth.Facts) + r.Intn(5), MaxIter: 1 + r.Intn(3)}
+	}
 	var qs []ref.Rule
 	for i := 1 + r.Intn(2); i > 0; i-- {
 		qs = append(qs, g.QueryFrom(append(append([]ref.Pred{}, auth.Facts...), content.Facts...)))
